@@ -225,6 +225,10 @@ def _environ(extra):
         os.environ.update(saved)
 
 
+class _MyDict(dict):
+    pass
+
+
 def _containers(v, kind, top=False):
     """the same configuration object built from another mapping type: collections.OrderedDict or collections.defaultdict below the top level (the top-level object stays a plain dict)"""
     import collections
@@ -235,6 +239,8 @@ def _containers(v, kind, top=False):
             return dict(items)
         if kind == "odict":
             return collections.OrderedDict(items)
+        if kind == "mydict":
+            return _MyDict(items)            # a plain user-defined dict subclass (instances have their own empty __dict__)
         d = collections.defaultdict(dict)
         d.update(items)
         return d
